@@ -209,7 +209,11 @@ func propView(ct *Contract, prop string) *Contract {
 			n.Ensures = append(n.Ensures, r)
 		}
 	}
-	n.Extra = ct.Extra
+	for _, r := range ct.Extra {
+		if clauseFor(r, prop) {
+			n.Extra = append(n.Extra, r)
+		}
+	}
 	n.Loops = map[int]*LoopSpec{}
 	for k, l := range ct.Loops {
 		nl := *l
